@@ -659,6 +659,12 @@ func runCheck(ctx *Ctx) int {
 		"extras":                        extraNotes,
 		"repo":                          ctx.Repo,
 	}
+	if lr.Discharged == 0 {
+		// nothing was discharged in this run (broken proof side): the proof-level keys
+		// would claim a proof that does not exist; keep only the generic counts.
+		delete(cov, "discharged")
+		cov["discharged_none"] = true
+	}
 	if lr.FactsNote != "" {
 		cov["facts"] = strings.TrimSpace(lr.FactsNote)
 	}
